@@ -429,9 +429,7 @@ func runWorker(dir string, streamFile string, idx int, gomaxprocs int) ([]replay
 		env = append(env, e)
 	}
 	env = append(env, envStream+"="+streamFile, envOut+"="+outFile, fmt.Sprintf("GOMAXPROCS=%d", gomaxprocs))
-	if idx == 0 {
-		env = append(env, "VERIF_C45_KEEP_EXPORT=1")
-	}
+	env = append(env, "VERIF_C45_KEEP_EXPORT=1")
 	cmd.Env = env
 	cmd.Dir = dir
 	if b, err := cmd.CombinedOutput(); err != nil {
@@ -658,7 +656,7 @@ func runC45(outer *testing.T) func(t rapid.TB, c c45Case, rec *vx.Case) {
 				}
 				ref := outs[0][ci]
 				if o.Export != ref.Export {
-					vx.Violatef(t, rec, c45, "export-differs", "%s: exported app state differs from the GOMAXPROCS=%d replayer (sha256 %s vs %s)", who, procs[0], o.Export, ref.Export)
+					vx.Violatef(t, rec, c45, "export-differs", "%s: exported app state differs from the GOMAXPROCS=%d replayer: %s", who, procs[0], jsonDiff(ref.ExportJSON, o.ExportJSON))
 				}
 				if d := firstDiff(o.Queries, ref.Queries); d != "" {
 					vx.Violatef(t, rec, c45, "query-differs", "%s: ordered query results differ from the GOMAXPROCS=%d replayer: %s", who, procs[0], d)
